@@ -205,10 +205,6 @@ func (m *PublishMessage) Encode(dst []byte) (int, error) {
 		return 0, fmt.Errorf("publish/Encode: Topic name is empty")
 	}
 
-	if len(m.payload) == 0 {
-		return 0, fmt.Errorf("publish/Encode: Payload is empty")
-	}
-
 	ml := m.msglen()
 
 	if err := m.SetRemainingLength(int32(ml)); err != nil {
